@@ -161,6 +161,13 @@ FIXED_GRAPHS = {
     "starred_and_double_starred": [("sink", "def sink(a, *rest, **kw):\n    return a.sa, rest.sr, kw.sk\n"),
                                    ("mid", "def mid(xs, opts):\n    return sink(*xs, **opts)\n"),
                                    ("top", "def top(p, q):\n    return mid(p.items, q.options)\n")],
+    # a function that deletes an attribute / an item of a module-level callable: the module-level name stays callable
+    "del_member_of_module_level_function": [("evict", "def evict(key):\n    del lookup.cache[key]\n    del lookup.stats\n"),
+                                            ("read", "def read(cfg):\n    return lookup(cfg)\n"),
+                                            ("lookup", "def lookup(p):\n    return p.loaded\n")],
+    "del_member_of_module_level_class": [("drop", "def drop(key):\n    del Box.registry[key]\n"),
+                                         ("mk", "def mk(q):\n    t = Box(q)\n    return t\n"),
+                                         ("Box", "class Box:\n    def __init__(self, u):\n        self.held = u.boxed\n")],
     "zero_arg_callees": [("reset", "def reset():\n    REG.ready = 1\n"), ("tag", "def tag(item):\n    item.seen = 1\n"),
                          ("run", "def run(item):\n    reset()\n    tag(item)\n"), ("again", "def again(item):\n    reset()\n    tag(item)\n")],
 }
